@@ -434,12 +434,16 @@ pub fn run_check(spec: &PropSpec, tier: Tier) -> i32 {
                             c.layer = w.layer.clone();
                             c.violation(
                                 case,
-                                format!(
-                                    "worker process died ({}{}) while executing this case; log tail:\n{}",
-                                    st,
-                                    if sanitizer_report { ", sanitizer report" } else { "" },
-                                    logtail
-                                ),
+                                if code == Some(crate::ctx::EXIT_STALL) {
+                                    format!("this case did not return: the worker made no progress for 30 s, and again for 90 s when the shard was re-run in journal mode (stall detector, exit status 77); log tail:\n{}", logtail)
+                                } else {
+                                    format!(
+                                        "worker process died ({}{}) while executing this case; log tail:\n{}",
+                                        st,
+                                        if sanitizer_report { ", sanitizer report" } else { "" },
+                                        logtail
+                                    )
+                                },
                             );
                             merged.violations.extend(c.violations);
                         }
